@@ -120,7 +120,7 @@ func VerifC11Readlink() {
 func VerifC11Read() {
 	w := vWorld("d")
 	f, x, ok := w.anyFh("fh")
-	off, cnt := verifrt.U64("off"), verifrt.U32("cnt")
+	off, cnt := vOffset("off"), verifrt.U32("cnt")
 	if ip := w.boundInode(x, ok); ip != nil {
 		// bound B_bytes: the read moves at most bbytes bytes (offset and count themselves are unconstrained)
 		bb := verifrt.Param("bbytes", 4)
@@ -138,7 +138,12 @@ func VerifC11Write() {
 	if verifrt.Param("fixstable", 0) == 1 {
 		stable = nfstypes.FILE_SYNC
 	}
-	r := w.nfs.NFSPROC3_WRITE(nfstypes.WRITE3args{File: w.h("fh"), Offset: nfstypes.Offset3(verifrt.U64("off")),
+	off := vOffset("off")
+	if verifrt.Param("oneblock", 0) == 1 {
+		// bound B_blocks = 1: the bytes written lie in one block
+		verifrt.Assume(off%4096+n <= 4096)
+	}
+	r := w.nfs.NFSPROC3_WRITE(nfstypes.WRITE3args{File: w.h("fh"), Offset: nfstypes.Offset3(off),
 		Count: nfstypes.Count3(verifrt.U32("cnt")), Stable: stable, Data: verifrt.Bytes("data", n)})
 	cov(r.Status)
 }
